@@ -191,7 +191,7 @@ def eval_remover_flow(ctx, R, fname, en_name, en, sugar_kind, expr_remover, is_s
                 positions.append((f_["name"], "opt", "s"))
         problems = []
         unsupported = None
-        worlds = [None] + positions + ([(f_, i_, k_, "nested") for f_, i_, k_ in positions] if not anon else [(f_, i_, k_, "in-call") for f_, i_, k_ in positions if k_ == "e"])
+        worlds = [None] + positions + ([(f_, i_, k_, "nested") for f_, i_, k_ in positions] if not anon else [(f_, i_, k_, w_) for f_, i_, k_ in positions if k_ == "e" for w_ in ("in-call", "in-operator")])
         # an assignment to `_` (the value is discarded, the right-hand side is still desugared and checked)
         discard = vname == "Substitution" and any(f_["name"] == "var" and f_["ty"].replace(" ", "") == "String" for f_ in vdef["fields"])
         if discard:
@@ -212,6 +212,9 @@ def eval_remover_flow(ctx, R, fname, en_name, en, sugar_kind, expr_remover, is_s
                 elif len(pos) > 3 and pos[3] == "in-call":
                     # an anonymous component as an argument of a call (e.g. `parallel T(U()(3))`)
                     sg = V("Expression", "Call", meta=O("call-meta"), id="T", args=("L", (sg,)))
+                elif len(pos) > 3 and pos[3] == "in-operator":
+                    # an anonymous component as an operand (e.g. `parallel (U()(3) + 1)`): neither a call nor an anonymous component itself
+                    sg = V("Expression", "InfixOp", meta=O("operator-meta"), lhe=sg, infix_op=O("operator"), rhe=lv.expr("other-operand"))
                 planted = sg if kind == "e" else V("Statement", "Return", meta=O("stmt-meta"), value=sg)
                 if ix is None:
                     node[3][fld] = planted
@@ -1226,7 +1229,8 @@ def eval_anonymous(ctx, R):
     }
     DECL = ["c", "a", "b"]
     OPS = {"<--": E("AssignOp", "AssignSignal"), "<==": E("AssignOp", "AssignConstraintSignal"), "=": E("AssignOp", "AssignVar")}
-    tdata = ("O", "template-data", (("get_declaration_inputs", L(("T", (nm, 0)) for nm in DECL)), ("get_declaration_outputs", L([("T", ("z_out", 0)), ("T", ("a_out", 0))]))))
+    tbody = ("O", "template-body", (("get_meta", ("O", "meta-of-the-template-body", ())),))
+    tdata = ("O", "template-data", (("get_declaration_inputs", L(("T", (nm, 0)) for nm in DECL)), ("get_declaration_outputs", L([("T", ("z_out", 0)), ("T", ("a_out", 0))])), ("get_body", tbody), ("get_name", "T"), ("get_file_id", O("file-of-the-template")), ("get_param_location", O("location-in-the-template")), ("get_body_as_vec", L([]))))
     flib = ("O", "file_library", (("get_line", ("PY", lambda *a: S("Some", 7))),))
     bad = {}
     n = 0
@@ -1262,6 +1266,29 @@ def eval_anonymous(ctx, R):
                 if outcome != "ok":
                     if not is_err:
                         bad.setdefault("errors", "%s: accepted" % wtag)
+                    else:
+                        # the error is reported at the call (the file the user is looking at), not at something looked up
+                        # elsewhere: the constructor of the report is handed the call's own meta
+                        def ctor(v_, depth=0):
+                            if depth > 6 or not isinstance(v_, tuple) or not v_:
+                                return None
+                            if v_[0] == "K" and (v_[1].endswith("boxed_report") or v_[1].endswith("Error::new") or v_[1].endswith("Report::error")):
+                                return v_
+                            if v_[0] in ("K", "S") and len(v_) > 2:
+                                for a_ in v_[2]:
+                                    r_ = ctor(a_, depth + 1)
+                                    if r_ is not None:
+                                        return r_
+                            if v_[0] == "K" and w.k_receiver(v_) is not None:
+                                return ctor(w.k_receiver(v_), depth + 1)  # `X::new(..).into_report()`
+                            return None
+                        c_ = ctor(res[2][0])
+                        if c_ is not None and c_[2]:
+                            a0 = c_[2][0]
+                            while isinstance(a0, tuple) and len(a0) > 2 and a0[0] == "S" and a0[1] == "Some":
+                                a0 = a0[2][0]
+                            if isinstance(a0, tuple) and a0 and a0[0] == "O" and a0 is not meta and a0[1] != "call-meta":
+                                bad.setdefault("error-location", "%s: the error is located at `%s`, not at the call" % (wtag, a0[1]))
                     continue
                 if is_err or not (isinstance(res, tuple) and len(res) > 2 and res[1] == "Ok" and isinstance(res[2][0], tuple) and res[2][0][0] == "T" and len(res[2][0][1]) == 3):
                     bad.setdefault("errors", "%s: returns %s" % (wtag, "an error" if is_err else repr(res)[:120]))
@@ -1320,6 +1347,47 @@ def eval_anonymous(ctx, R):
         ctx.note("remove_anonymous_from_expression/AnonymousComponent (binding) is outside the evaluator's subset (%s): shape obligations apply" % u)
         w.stubs = {}
         return False
+    # a tuple of calls, `(x, T()(..), T()(..))`: what is returned is, component by component, what each element returns
+    # on its own - the statements and declarations of every call, in order, and the values in order
+    tuple_bad = None
+    try:
+        def call_node(k):
+            m_ = ("O", "call-meta-%d" % k, (("start", 1000 * (k + 1)), ("get_file_id", O("file-id")), ("clone", ("PY", lambda: mh_[0]))))
+            mh_ = [m_]
+            return V("Expression", "AnonymousComponent", meta=m_, id="T", is_parallel=False, params=L([]), signals=L(leafs(3)), names=NONE)
+
+        def parts(res_):
+            if not (isinstance(res_, tuple) and len(res_) > 2 and res_[1] == "Ok" and isinstance(res_[2][0], tuple) and res_[2][0][0] == "T" and len(res_[2][0][1]) == 3):
+                raise Unsupported("the expansion returns %r" % (res_,))
+            a_, b_, c_ = res_[2][0][1]
+            lst = lambda x: list(x.items) if isinstance(x, Sink) else (list(x[1]) if isinstance(x, tuple) and x and x[0] == "L" else None)  # noqa: E731
+            if lst(a_) is None or lst(b_) is None:
+                raise Unsupported("statement lists %r / %r" % (a_, b_))
+            return lst(a_), lst(b_), c_
+
+        for shape in ([0, "leaf", 1], [0, 1, 2], ["leaf", 0]):
+            elems = [leafs(1)[0] if x == "leaf" else call_node(x) for x in shape]
+            tmeta = O("tuple-meta")
+            tup = V("Expression", "Tuple", meta=tmeta, values=L(elems))
+            whole = parts(w.call_fn(fn, [MMap([["T", tdata]]), flib, tup, NONE]))
+            each = [parts(w.call_fn(fn, [MMap([["T", tdata]]), flib, e_, NONE])) for e_ in elems]
+            n += 1
+            want_st = [x for e_ in each for x in e_[0]]
+            want_de = [x for e_ in each for x in e_[1]]
+            vals = whole[2][3].get("values") if isinstance(whole[2], tuple) and len(whole[2]) > 3 and whole[2][0] == "V" and whole[2][2] == "Tuple" else None
+            vals = list(vals.items) if isinstance(vals, Sink) else (list(vals[1]) if isinstance(vals, tuple) and vals and vals[0] == "L" else None)
+            shown = "(%s)" % ", ".join("x" if x == "leaf" else "T()(..)" for x in shape)
+            if whole[0] != want_st:
+                tuple_bad = tuple_bad or "%s: %d statement(s) returned, the calls in it expand to %d" % (shown, len(whole[0]), len(want_st))
+            elif whole[1] != want_de:
+                tuple_bad = tuple_bad or "%s: %d declaration(s) returned, the calls in it need %d" % (shown, len(whole[1]), len(want_de))
+            elif vals is None or vals != [e_[2] for e_ in each]:
+                tuple_bad = tuple_bad or "%s: the values of the resulting tuple are not those of its elements, in order" % shown
+    except (Unsupported, passeval.Panic) as u:
+        ctx.note("remove_anonymous_from_expression/Tuple is outside the evaluator's subset (%s)" % u)
+        tuple_bad = False
+    if tuple_bad is not False:
+        ctx.check(R, "anonymous/tuple-of-calls/every-call-expanded", tuple_bad is None, tuple_bad or "a tuple returns the statements and declarations of each of its elements, in order, and their values", site(SSR, fn))
     # a call in statement position, `T(p)(a);`, as the grammar's builder writes it, through both stages: accepted exactly
     # when the template has no outputs (outputs of an anonymous component must be consumed)
     SB = "program_structure/src/abstract_syntax_tree/statement_builders.rs"
@@ -1356,6 +1424,7 @@ def eval_anonymous(ctx, R):
     ctx.check(R, "anonymous/named-input/value-and-operator-by-the-same-position", "value" not in bad and "operator" not in bad, bad.get("value") or bad.get("operator") or "each port gets the value and the operator written for its own name; positional inputs get `<==`", site(SSR, fn))
     ctx.check(R, "anonymous/outputs-in-declaration-order", "outputs" not in bad, bad.get("outputs", "the value of the call is the tuple of the component's outputs in declaration order"), site(SSR, fn))
     ctx.check(R, "anonymous/inputs-in-declaration-order", "binding" not in bad and "port" not in bad, bad.get("binding") or bad.get("port") or "inputs are assigned in declaration order (c, a, b), not in name order", site(SSR, fn))
+    ctx.check(R, "anonymous/error-located-at-the-call", "error-location" not in bad, bad.get("error-location", "every error about a call is handed the call's own location (a report located in another file is filtered out when that file is not an input)"), site(SSR, fn))
     ctx.check(R, "anonymous/arity-checked", "errors" not in bad, bad.get("errors", "a missing name, a wrong number of signals and an unknown template are rejected"), site(SSR, fn))
     return True
 
